@@ -597,7 +597,7 @@ class EPnPSub(Sub):
                     "lat": [draw(st.floats(-0.4, 0.4)) for _ in range(2)],
                     "fx": 10.0 ** draw(st.floats(0.0, 3.3)), "fyr": draw(st.one_of(st.just(1.0), st.floats(0.8, 1.25))),
                     "pp": [draw(st.floats(-500.0, 1000.0)) for _ in range(2)],
-                    "refine": draw(st.booleans()), "via": draw(st.sampled_from(("ctor", "fwd"))),
+                    "refine": draw(st.booleans()), "via": draw(st.sampled_from(("ctor", "fwd"))), "reuse": draw(st.sampled_from((False, False, True))),
                     "kbatch": draw(st.booleans())}
         return s()
 
@@ -655,10 +655,16 @@ class EPnPSub(Sub):
                          "pp.point2pixel differs from u = fx X/Z + cx by %.3g f" % dev):
             return
         with rec.sut("EPnP"):
-            if case["via"] == "ctor":
-                T = pp.module.EPnP(Kt, refine=case["refine"])(pts, pxl)
-            else:
-                T = pp.module.EPnP(refine=case["refine"])(pts, pxl, Kt)
+            solver = pp.module.EPnP(Kt, refine=case["refine"]) if case["via"] == "ctor" else pp.module.EPnP(refine=case["refine"])
+            if case.get("reuse"):
+                # an earlier call of the same module with OTHER per-call intrinsics (result discarded): nothing may leak
+                K2 = Kt.clone()
+                K2[..., 0, 0] = K2[..., 0, 0] * 1.7
+                K2[..., 1, 1] = K2[..., 1, 1] * 0.6
+                K2[..., 0, 2] = K2[..., 0, 2] + 11.0
+                solver(pts, pp.point2pixel(pts, K2, pp.SE3(tu.tens(pose_true if nb else pose_true[0], "float64"))), K2)
+                rec.label("reused_module")
+            T = solver(pts, pxl) if case["via"] == "ctor" else solver(pts, pxl, Kt)
         rec.check(torch.equal(pts, pts0) and torch.equal(pxl, pxl0), "epnp:mutates_input", "EPnP changed its inputs")
         if not rec.check(isinstance(T, pp.LieTensor) and T.ltype == pp.SE3_type, "epnp:type",
                          "EPnP returned %s / %s" % (type(T).__name__, getattr(T, "ltype", None))):
